@@ -326,7 +326,9 @@ class Tr:
                     and isinstance(s.value.func.value, ast.Name)
                     and s.value.func.value.id == "warnings"):
                 return self.block(rest)                       # warnings.warn(...): no effect on the value
-            fail(s, "expression statement")
+            if not (isinstance(s.value, ast.Call) and isinstance(s.value.func, ast.Name)
+                    and s.value.func.id in getattr(self.c, "effects", ())):
+                fail(s, "expression statement")
         if isinstance(s, ast.AnnAssign) and s.value is None:
             return self.block(rest)                           # bare annotation
         if isinstance(s, (ast.Assign, ast.AnnAssign)):
@@ -353,6 +355,23 @@ class Tr:
                 self.c.selfmap = saved
                 return f"let {cn} := {t} in\n  {body}"
             fail(s, "assignment target")
+        if isinstance(s, ast.AugAssign):
+            # x op= e  ==>  x = x op e
+            binop = ast.BinOp(left=ast.copy_location(
+                ast.Attribute(value=s.target.value, attr=s.target.attr, ctx=ast.Load())
+                if isinstance(s.target, ast.Attribute) else ast.Name(id=s.target.id, ctx=ast.Load()),
+                s.target), op=s.op, right=s.value)
+            return self.block([ast.copy_location(ast.Assign(targets=[s.target], value=binop), s)] + rest)
+        if (isinstance(s, ast.Expr) and isinstance(s.value, ast.Call)
+                and isinstance(s.value.func, ast.Name) and s.value.func.id in getattr(self.c, "effects", ())):
+            # an observable effect (e.g. madvise): recorded, in order, in the result
+            args = [self.expr(a)[0] for a in s.value.args]
+            self.c.fresh += 1
+            cn = f"effect_{self.c.fresh}"
+            self.c.effect_vars = getattr(self.c, "effect_vars", []) + [cn]
+            body = self.block(rest)
+            self.c.effect_vars = self.c.effect_vars[:-1]
+            return f"let {cn} := ({', '.join(args)}) in\n  {body}"
         if isinstance(s, ast.If):
             t, tt = self.expr(s.test)
             if tt != "bool":
@@ -413,7 +432,8 @@ def find_func(tree, qual):
 
 
 def translate_function(src_file, qual, coq_name, params, ret, funcs, selfmap=None,
-                       raises=False, needs_exp=False, end_expr=None, drop_self_attrs=False):
+                       raises=False, needs_exp=False, end_expr=None, drop_self_attrs=False,
+                       effects=()):
     """params: list of (python name, type) in Coq parameter order.
     end_expr: for __init__-style functions, python attrs to return as a tuple."""
     tree = ast.parse((REPO / src_file).read_text())
@@ -423,6 +443,7 @@ def translate_function(src_file, qual, coq_name, params, ret, funcs, selfmap=Non
         raise Unsupported(f"{qual}: parameter list changed: {pyparams}")
     env = {p: (p, t) for p, t in params}
     ctx = Ctx(env, ret, funcs, dict(selfmap or {}), raises)
+    ctx.effects = tuple(effects)
     tr = Tr(ctx)
     stmts = list(fn.body)
     if end_expr is not None:
@@ -433,7 +454,7 @@ def translate_function(src_file, qual, coq_name, params, ret, funcs, selfmap=Non
 
         def block(sts):
             if not sts:
-                outs = []
+                outs = ["[" + "; ".join(getattr(ctx, "effect_vars", [])) + "]"] if effects else []
                 for a in end_expr:
                     if a not in ctx.selfmap:
                         raise Unsupported(f"{qual}: attribute {a} not assigned")
@@ -505,8 +526,18 @@ def gen_merges(simfuncs):
     return "\n\n".join(out) + "\n"
 
 
-def gen_utils():
-    out = [HEADER.format(src="bblean/utils.py, bblean/bitbirch.py, bblean/cli.py")]
+def gen_mem():
+    """bblean/_memory.py: _ArrayMemPagesManager.should_release_curr_page /
+    release_curr_page_and_update_addr (the madvise call is recorded as an effect)."""
+    out = [HEADER.format(src="bblean/_memory.py")]
+    sm = {"_pagesizex": ("self_pagesizex", "int"), "_iters_per_pagex": ("self_iters", "int"),
+          "_curr_page_start_addr": ("self_addr", "int")}
+    out.append(translate_function("bblean/_memory.py", "_ArrayMemPagesManager.should_release_curr_page",
+                                  "should_release_curr_page", [("row_idx", "int")], "bool", {}, sm))
+    out.append(translate_function("bblean/_memory.py",
+                                  "_ArrayMemPagesManager.release_curr_page_and_update_addr",
+                                  "release_curr_page_and_update_addr", [], "selfstate", {}, sm,
+                                  end_expr=["_curr_page_start_addr"], effects=["_madvise_dontneed"]))
     return "\n\n".join(out) + "\n"
 
 
@@ -522,6 +553,7 @@ def main():
     try:
         sim, simfuncs = gen_sim()
         merges = gen_merges(simfuncs)
+        mem = gen_mem()
     except Unsupported as e:
         print(f"TRANSLATION FAILED (tie broken): {e}")
         return 1
@@ -531,7 +563,8 @@ def main():
     ch = []
     ch.append(write_if_changed(OUT / "GSim.v", sim))
     ch.append(write_if_changed(OUT / "GMerges.v", merges))
-    print("translated: GSim.v GMerges.v", "(changed)" if any(ch) else "(unchanged)")
+    ch.append(write_if_changed(OUT / "GMem.v", mem))
+    print("translated: GSim.v GMerges.v GMem.v", "(changed)" if any(ch) else "(unchanged)")
     return 0
 
 
